@@ -17,6 +17,9 @@ def main():
         from checks.common import PropertyCheck
         rc = PropertyCheck(args.prop, PROPS[args.prop], args.tier, seed).run()
         sys.exit(rc)
+    if args.prop in ("C02", "C03", "C15", "C16", "C19"):
+        from checks.e2check import E2Check
+        sys.exit(E2Check(args.prop, args.tier, seed, "").run())
     print(f"unknown property {args.prop}")
     sys.exit(3)
 
